@@ -696,8 +696,9 @@ Proof. vm_compute. reflexivity. Qed.
 
 Example ex_prescribed : prescribed ex_world ex_svc (Ep "10.0.0.9" 80%Z false).
 Proof.
-  apply (proj2 (world_eps_exact ex_world ex_svc ltac:(discriminate) ex_world_wf)).
-  rewrite ex_world_eps. simpl. tauto.
+  assert (Hne : v_name ex_svc <> "") by (simpl; discriminate).
+  destruct (world_eps_exact ex_world ex_svc Hne ex_world_wf) as [_ H].
+  refine (proj1 (H (Ep "10.0.0.9" 80%Z false)) _). rewrite ex_world_eps. right. right. left. reflexivity.
 Qed.
 
 Example ex_503 : oss_http_block (world_eps (World NoNP [] [ex_svc]) ex_svc) = [sock503].
